@@ -98,6 +98,19 @@ pub(crate) mod spec {
         true
     }
 
+    /// Store entry value `v` for cluster `c` (independent writer used to BUILD test tables; FAT32 keeps bits 28-31).
+    pub(crate) fn set_raw(width: u8, d: &mut [u8; NB], c: u32, v: u32) {
+        match width {
+            0 => {
+                let o = (c + c / 2) as usize;
+                if c & 1 == 0 { d[o] = v as u8; d[o + 1] = (d[o + 1] & 0xF0) | ((v >> 8) as u8 & 0x0F); }
+                else { d[o] = (d[o] & 0x0F) | ((v as u8 & 0x0F) << 4); d[o + 1] = (v >> 4) as u8; }
+            }
+            1 => { let o = (c * 2) as usize; d[o] = v as u8; d[o + 1] = (v >> 8) as u8; }
+            _ => { let o = (c * 4) as usize; d[o] = v as u8; d[o + 1] = (v >> 8) as u8; d[o + 2] = (v >> 16) as u8; d[o + 3] = (d[o + 3] & 0xF0) | ((v >> 24) as u8 & 0x0F); }
+        }
+    }
+
     /// Number of free (zero) entries among clusters 2..n.
     pub(crate) fn count_free(width: u8, d: &[u8; NB], n: u32) -> u32 {
         let mut c = 0;
